@@ -127,7 +127,7 @@ class Excel:
             # A:C range case: like any other matrix it is a list of rows
             return self._get_matrix(Cell(first.title, first.column, 0),
                                     Cell(first.title, second.column, len(self._data[first.title]) - 1))
-        elif isinstance(first.row, int) and first.row >= 0 and second.row >= 0:
+        elif isinstance(first.row, int) and isinstance(second.row, int) and first.row >= 0 and second.row >= 0:
             return self._get_matrix(first, second)
         else:
             raise E2PyclParserException('Invalid cell coordinates')
